@@ -25,7 +25,7 @@ var R = hx.NewRecorder("C04", "cases = (message, write partition) / (operation h
 	"non-trivial = message length >= 1 and (>= 2 writes or a Sum before the end or a derived construction); distinct by hash of (message, plan)")
 
 func TestMain(m *testing.M) {
-	R.Require("len=55", "len=56", "len=63", "len=64", "len=119", "len=120", "empty_write", "sum_prefix_nospare", "sum_prefix_spare", "reset_mid", "stream>=2MiB")
+	R.Require("len=55", "len=56", "len=63", "len=64", "len=119", "len=120", "empty_write", "sum_prefix_nospare", "sum_prefix_spare", "reset_mid", "stream>=2MiB", "oneshot_size_threshold")
 	R.Assume("ref/rsm3 reproduces the GM/T 0004 example digests (checked by TestRefSelf and again here)")
 	hx.Main(m, R)
 }
@@ -105,6 +105,44 @@ func TestC04_LengthsExhaustive(t *testing.T) {
 		}
 	}
 	R.Subspace(fmt.Sprintf("all message lengths 0..%d (one-shot, single write, two-way splits)", max), int64(hi-lo), true)
+}
+
+// One-shot and single-write digests at the sizes where implementations switch strategy: every power of two from 256 bytes
+// to 1 MiB (thorough: 16 MiB), with the neighbours that are not multiples of the block size, and drawn lengths in between.
+func TestC04_OneShotSizeThresholds(t *testing.T) {
+	refSelf(t)
+	top := 20
+	if hx.Thorough() {
+		top = 24
+	}
+	var sizes []int
+	for k := 8; k <= top; k++ {
+		for _, d := range []int{-65, -64, -63, -1, 0, 1, 31, 63, 64, 65, 97} {
+			sizes = append(sizes, 1<<k+d)
+		}
+	}
+	rng := uint64(hx.Seed())*0x9E3779B97F4A7C15 + 12345
+	for i := 0; i < 60; i++ {
+		rng = rng*6364136223846793005 + 1442695040888963407
+		sizes = append(sizes, 2049+int(rng>>33)%200000)
+	}
+	for i, n := range sizes {
+		if i%hx.Shards() != hx.Shard() {
+			continue
+		}
+		m := make([]byte, n)
+		gen.Fill(m, uint64(hx.Seed())*7919+uint64(n))
+		want := rsm3.Sum(m)
+		if got := sm3.Sm3Sum(m); !bytes.Equal(got, want) {
+			t.Fatalf("Sm3Sum of %d bytes: got %x, GM/T 0004 gives %x", n, got, want)
+		}
+		h := sm3.New()
+		h.Write(m)
+		if got := h.Sum(nil); !bytes.Equal(got, want) {
+			t.Fatalf("New/Write/Sum of %d bytes: got %x, GM/T 0004 gives %x", n, got, want)
+		}
+		R.Case(true, hx.HashKey("thr", n, hx.Seed()), "oneshot_size_threshold", lenClass(n))
+	}
 }
 
 func TestC04_Chunking(t *testing.T) {
